@@ -25,6 +25,7 @@ type Op struct {
 	RType  string   `json:"rtype"`  // authorize: response type combination
 	Scopes []string `json:"scopes"` // requested scopes
 	Grant  []string `json:"grant"`  // scopes the resource owner grants
+	GAud   []string `json:"gaud"`   // audiences the resource owner grants (["*"] = all requested ones)
 	Aud    []string `json:"aud"`    // requested (= granted) audience
 	Redir  string   `json:"redir"`  // authorize: "sent"|"omit"; redeem: "same"|"absent"|"diff"|"enc"
 	Pkce   string   `json:"pkce"`   // authorize: "none"|"S256"|"plain"|"plain_nm"|"plain_short"
@@ -90,6 +91,15 @@ func (w *World) setAuth(r *http.Request, form url.Values, client, auth string) {
 		r.SetBasicAuth(url.QueryEscape(client), url.QueryEscape(ClientSecrets["B"]+ClientSecrets["A"]))
 	case "none":
 	}
+}
+
+func contains(l []string, x string) bool {
+	for _, y := range l {
+		if x == y {
+			return true
+		}
+	}
+	return false
 }
 
 func postReq(path string) *http.Request {
@@ -282,7 +292,10 @@ func (w *World) finishAuthorize(p int, op Op, q url.Values, o Obs) Obs {
 		}
 	}
 	for _, a := range ar.GetRequestedAudience() {
-		ar.GrantAudience(a)
+		// nil (an operation built in Go without the field) or ["*"]: the resource owner grants every requested audience
+		if op.GAud == nil || len(op.GAud) == 1 && op.GAud[0] == "*" || contains(op.GAud, a) {
+			ar.GrantAudience(a)
+		}
 	}
 	resp, err := w.Provider.NewAuthorizeResponse(ctx, ar, w.session())
 	if err != nil {
